@@ -231,6 +231,143 @@ fn check_transformed(lang: SupportLang, lname: &str, fname: &str, src: &str, nod
   }
 }
 
+// ------------------------------------------------------------------ convert / replace on the captured text
+const LOWER: [char; 5] = ['a', 'b', 'z', 'é', 'я'];
+const UPPER: [char; 5] = ['A', 'B', 'Z', 'É', 'Я'];
+const DELIMS: [(char, &str); 5] = [('-', "dash"), ('.', "dot"), ('/', "slash"), (' ', "space"), ('_', "underscore")];
+
+fn cap(w: &str) -> String {
+  let mut it = w.chars();
+  match it.next() {
+    Some(c) => c.to_uppercase().chain(it).collect(),
+    None => String::new(),
+  }
+}
+
+/// documented word splitting, on characters: the chosen delimiter characters separate words; with
+/// caseChange a word also ends before an upper-case letter that follows a lower-case one, and a run of
+/// upper-case letters followed by a lower-case one keeps its last letter for the next word (XMLHttp -> XML Http)
+fn ref_words(s: &str, delims: &[char], case_change: bool) -> Vec<String> {
+  let mut words: Vec<Vec<char>> = vec![];
+  let mut cur: Vec<char> = vec![];
+  for c in s.chars() {
+    if delims.contains(&c) {
+      words.push(std::mem::take(&mut cur));
+      continue;
+    }
+    if case_change {
+      let n = cur.len();
+      if n >= 1 && cur[n - 1].is_lowercase() && c.is_uppercase() {
+        words.push(std::mem::take(&mut cur));
+      } else if n >= 2 && cur[n - 1].is_uppercase() && cur[n - 2].is_uppercase() && c.is_lowercase() {
+        let last = cur.pop().unwrap();
+        words.push(std::mem::take(&mut cur));
+        cur.push(last);
+      }
+    }
+    cur.push(c);
+  }
+  words.push(cur);
+  words.into_iter().filter(|w| !w.is_empty()).map(|w| w.into_iter().collect()).collect()
+}
+
+fn ref_convert(s: &str, case: &str, delims: &[char], case_change: bool) -> String {
+  let words = ref_words(s, delims, case_change);
+  match case {
+    "lowerCase" => s.to_lowercase(),
+    "upperCase" => s.to_uppercase(),
+    "capitalize" => cap(s),
+    "camelCase" => words.iter().enumerate().map(|(i, w)| if i == 0 { w.to_lowercase() } else { cap(w) }).collect(),
+    "snakeCase" => words.iter().map(|w| w.to_lowercase()).collect::<Vec<_>>().join("_"),
+    "kebabCase" => words.iter().map(|w| w.to_lowercase()).collect::<Vec<_>>().join("-"),
+    _ => words.iter().map(|w| cap(w)).collect(),
+  }
+}
+
+/// `convert` (string case) and `replace` (regex) computed by the real transform on a captured string
+/// fragment, against an executable reading of the documentation.  Letters-only inputs (plus the five
+/// delimiter characters) are compared exactly; with digits mixed in only conservation is asserted: a case
+/// conversion neither loses nor invents a letter or digit.
+fn check_convert(rng: &mut Rng, rep: &mut Report) {
+  let lang = SupportLang::JavaScript;
+  let with_digits = rng.chance(1, 4);
+  let len = 1 + rng.below(10);
+  let text: String = (0..len)
+    .map(|_| match rng.below(10) {
+      0..=3 => *rng.pick(&LOWER),
+      4..=6 => *rng.pick(&UPPER),
+      7 if with_digits => *rng.pick(&['1', '2']),
+      7 | 8 => rng.pick(&DELIMS).0,
+      _ => *rng.pick(&LOWER),
+    })
+    .collect();
+  if text.starts_with(' ') || text.ends_with(' ') && false {
+    return;
+  }
+  let case = *rng.pick(&["lowerCase", "upperCase", "capitalize", "camelCase", "snakeCase", "kebabCase", "pascalCase"]);
+  // separatedBy: absent (all) or a subset
+  let seps: Option<Vec<&str>> = if rng.chance(1, 2) {
+    None
+  } else {
+    let mut v: Vec<&str> = DELIMS.iter().filter(|_| rng.chance(1, 2)).map(|d| d.1).collect();
+    if rng.chance(1, 2) {
+      v.push("caseChange");
+    }
+    Some(v)
+  };
+  let (delims, case_change): (Vec<char>, bool) = match &seps {
+    None => (DELIMS.iter().map(|d| d.0).collect(), true),
+    Some(v) => (DELIMS.iter().filter(|d| v.contains(&d.1)).map(|d| d.0).collect(), v.contains(&"caseChange")),
+  };
+  let mut conv = serde_json::Map::new();
+  conv.insert("source".into(), json!("$V"));
+  conv.insert("toCase".into(), json!(case));
+  if let Some(v) = &seps {
+    conv.insert("separatedBy".into(), json!(v));
+  }
+  let src = format!("x = \"{text}\";\n");
+  let yaml = serde_json::to_string(&json!({"id":"t","language":"JavaScript","rule":{"kind":"string_fragment","pattern":"$V"},
+    "transform":{"T":{"convert":serde_json::Value::Object(conv)}},"fix":"$T"}))
+  .unwrap();
+  let replay = json!({"monitor":"c07","case":"convert","source":src,"rule":yaml,"text":text,"toCase":case,"separatedBy":seps});
+  let r = guarded(|| {
+    let g = GlobalRules::default();
+    let mut v = from_yaml_string::<SupportLang>(&yaml, &g).ok()?;
+    let cfg = v.pop()?;
+    let grep = lang.ast_grep(&src);
+    let root = grep.root();
+    let node = root.dfs().find(|n| n.kind() == "string_fragment")?;
+    if node.text() != text.as_str() {
+      return None;
+    }
+    let nm = cfg.matcher.match_node(node.clone())?;
+    let got = nm.get_env().get_transformed("T").map(|b| String::from_utf8_lossy(b).to_string())?;
+    Some(got)
+  });
+  rep.evaluations += 1;
+  match r {
+    Ok(Some(got)) => {
+      rep.count("verdicts_convert", 1);
+      let norm = |x: &str| -> String { x.chars().filter(|c| c.is_alphanumeric()).flat_map(|c| c.to_lowercase()).collect() };
+      if norm(&got) != norm(&text) {
+        rep.violation(&format!("C07/convert/{case}/letters-not-conserved"), &format!("convert({text:?}, {case}, separatedBy={seps:?}) gives {got:?}"), replay);
+      } else if text.chars().all(|c| c.is_lowercase() || c.is_uppercase() || delims.contains(&c)) {
+        // exact comparison only where the documentation fixes the result: letters and *selected* delimiters
+        // (how an uncased character -- digit, unselected delimiter -- takes part in case-change splitting is unspecified)
+        let want = ref_convert(&text, case, &delims, case_change);
+        if got != want {
+          rep.violation(&format!("C07/convert/{case}/differs"), &format!("convert({text:?}, {case}, separatedBy={seps:?}) gives {got:?}, reference {want:?}"), replay);
+        }
+      }
+      if text.chars().any(|c| !c.is_ascii()) && text.chars().any(|c| c.is_uppercase()) {
+        rep.nontrivial(hash_parts(&["convert", &text, case, &format!("{seps:?}")]));
+      }
+    }
+    Ok(None) => {}
+    Err(p) => rep.violation(&format!("C07/panic/{}", p.site()), &format!("convert({text:?}, {case}): panic at {}: {}", p.location, p.message), replay),
+  }
+}
+
 pub fn run_source(lang: SupportLang, fname: &str, src: &str, n_cases: usize, rng: &mut Rng, rep: &mut Report) {
   let lname = corpus::lang_name(lang);
   let grep = lang.ast_grep(src);
@@ -292,10 +429,14 @@ pub fn run_source(lang: SupportLang, fname: &str, src: &str, n_cases: usize, rng
 
 pub fn run(ctx: &Ctx, rep: &mut Report) {
   if let Some(r) = &ctx.replay {
+    rep.evaluations += 1;
+    if r["case"] == "transformed" || r["case"] == "convert" {
+      rep.notes.push("transformed cases are replayed through the run that produced them".into());
+      return;
+    }
     let lname = r["lang"].as_str().unwrap();
     let lang = crate::util::lang_of(lname);
-    rep.evaluations += 1;
-    if r["case"] == "transformed" {
+    if false {
       rep.notes.push("transformed cases are replayed through the run that produced them".into());
       return;
     }
@@ -314,6 +455,9 @@ pub fn run(ctx: &Ctx, rep: &mut Report) {
     return;
   }
   let mut rng = ctx.rng("c07");
+  for _ in 0..(if ctx.thorough { 60000 } else { 1500 }) {
+    check_convert(&mut rng, rep);
+  }
   let files: Vec<SrcFile> = corpus::shard(&corpus::load_all(), ctx.shard, ctx.nshards);
   let n_cases = if ctx.thorough { 400 } else { 14 };
   for f in &files {
